@@ -298,6 +298,16 @@ func c12Case(w *rt.W, input string, cfg c12Cfg) c12Verdict {
 		err := s.UnmarshalText([]byte(input))
 		rs = append(rs, res{"Size.UnmarshalText", s, err})
 	}
+	{
+		g, err := size.Parser([]byte(input), cfg.rule)
+		rs = append(rs, res{"Parser variable", g, err})
+		rec := append(append(make([]byte, 0, len(input)+8), input...), `,"x":1}`...)
+		g, err = size.DefaultParser(rec[:len(input)], cfg.rule|1<<11) // an undefined extra rule bit changes nothing
+		rs = append(rs, res{"DefaultParser[[]byte] on a sub-slice (extra rule bit)", g, err})
+		if string(rec[len(input):]) != `,"x":1}` {
+			w.Fail("parser-wrote-behind-input", "json", rt.Args("input", input, "rule", int(cfg.rule), "max_object_keys", cfg.maxKeys, "max_input_length", cfg.limit), string(rec), input+`,"x":1}`, "the parser wrote into the caller's buffer behind the input")
+		}
+	}
 	w.Eval(int64(len(rs)))
 	jsonV := v
 	for _, r := range rs {
@@ -710,6 +720,29 @@ func runC12(c *rt.Ctx) {
 			}
 		})
 	}
+	// number literals that are not JSON (leading zeros, sign, bare fraction, hex, separators), top level and as members
+	for _, cfg := range []c12Cfg{{rule: size.RuleEnableJSONStringForm | size.RuleEnableJSONObjectForm, maxKeys: 16}, {rule: size.RuleEnableJSONObjectForm, maxKeys: 0}, {rule: 15, maxKeys: 2}, {rule: size.RuleEnableJSONStringForm, maxKeys: 3}} {
+		cfg := cfg
+		c12Apply(cfg)
+		c.Serial("malformed-numbers", func(w *rt.W) {
+			bad := []string{"007", "00", "01", "+1", "1.", ".5", "0x10", "1e", "1e+", "-", "--1", "1_000", "1,000", "0b1", "Infinity", "NaN", "1f", "1 000", "0 7", "０７", "7.", "7e", "-07", "0.", "1.e2"}
+			for _, n := range bad {
+				for _, u := range []string{"B", "KiB", "", "kB"} {
+					for _, doc := range []string{n, `{"value":` + n + `,"unit":"` + u + `"}`, `{"unit":"` + u + `","value":` + n + `}`, `{"value": ` + n + `, "unit": "` + u + `"}`, `{"x":` + n + `,"value":1,"unit":"` + u + `"}`, `{"value":1,"unit":"` + u + `","x":[` + n + `]}`, `[` + n + `]`, ` ` + n + ` `} {
+						c12Case(w, doc, cfg)
+					}
+				}
+				w.ClassN("malformed-number-literal", 1)
+			}
+			// the same layouts with well-formed numbers must still be read
+			for _, n := range []string{"7", "0", "1024", "18446744073709551615"} {
+				c12Case(w, `{"value":`+n+`,"unit":"B"}`, cfg)
+				c12Case(w, `{"unit":"B","value":`+n+`}`, cfg)
+			}
+		})
+	}
+	c.Require("malformed-number-literal", 50)
+
 	// the input limit in front of the JSON forms
 	for _, limit := range []int{128, 20, 1} {
 		cfg := c12Cfg{rule: size.RuleEnableJSONStringForm | size.RuleEnableJSONObjectForm, maxKeys: 16, limit: limit}
